@@ -72,15 +72,19 @@ def classify(name, case, msg):
         if aspect == "error" and -nd <= axis < nd and shape[axis] == 0 and "cannot convert float NaN to integer" in msg and not kw.get("stable"):
             return "F-sort-empty-axis"
 
-    # ---- findings whose region is a Lean predicate evaluated by the model driver
+    # ---- findings whose region is a Lean predicate evaluated by the model driver.  `variant` says which of the
+    # proposed fixes the code under test already has (decided by replaying the witnesses): a region only counts
+    # while its defect is present (hypotheses h1/h2 of `unique_counts_any_variant`).
     exc = model.get("excluded", {})
+    var = model.get("variant", {})
+    stored_fill_active = not var.get("prune", False) and _stores_fill(case)
     if model and obs is not None and obs == model.get("predicted"):
-        if op in ("argmax", "argmin") and aspect == "values" and exc.get("ExcludedArgStoredFill") and _stores_fill(case):
+        if op in ("argmax", "argmin") and aspect == "values" and exc.get("ExcludedArgStoredFill") and stored_fill_active:
             return "F-stored-fill"
-        if op in ("unique_values", "unique_counts") and aspect == "values" and exc.get("ExcludedStoredFill") and _stores_fill(case):
+        if op in ("unique_values", "unique_counts") and aspect == "values" and exc.get("ExcludedStoredFill") and stored_fill_active:
             return "F-stored-fill"
-        if op == "unique_counts" and aspect == "values" and exc.get("ExcludedTwoBelow") and not exc.get("ExcludedStoredFill"):
+        if op == "unique_counts" and aspect == "values" and exc.get("ExcludedTwoBelow") and not var.get("gather", False):
             return "F-unique-counts-perm"
-        if op in ("nonzero", "argwhere", "where") and aspect == "indices" and exc.get("StoresZero") and case["fill"] == 0 and _stores_fill(case):
+        if op in ("nonzero", "argwhere", "where") and aspect == "indices" and exc.get("StoresZero") and case["fill"] == 0 and stored_fill_active:
             return "F-stored-fill"
     return None
